@@ -393,7 +393,7 @@ c19_set_path!(c19_set_path_empty, true, "", []);
 //@ assumes=core::str::from_utf8 replaced by the byte-loop RFC 3629 model
 c19_get_path!(c19_get_path_ab, 6, "a/b", ["a", "b"]);
 
-//@ props=C19 tier=thorough timeout=1800 mem=13 cap=3 name=c19_get_path_slashes
+//@ props=C19 tier=experimental timeout=1800 mem=13 cap=3 name=c19_get_path_slashes
 //@ functions=CoapRequest::get_path, CoapRequest::get_path_as_vec
 //@ bounds=raw Uri-Path values "a", "", "" (concrete)
 //@ what=empty segments are kept by both getters
